@@ -1,0 +1,77 @@
+//! Verification hooks (compiled only with `--cfg yamaquasi_verif`).
+//!
+//! A global event sink that is off unless a harness installs it, and an optional
+//! scheduling callback used to widen the set of thread interleavings explored.
+//! With the cfg flag off this module does not exist and nothing in the crate changes.
+
+use std::cell::Cell;
+use std::sync::atomic::{AtomicBool, AtomicUsize, Ordering};
+use std::sync::{Mutex, RwLock};
+
+static ENABLED: AtomicBool = AtomicBool::new(false);
+static EVENTS: Mutex<Vec<String>> = Mutex::new(Vec::new());
+static NEXT_TID: AtomicUsize = AtomicUsize::new(1);
+static SCHED: RwLock<Option<Box<dyn Fn(&'static str) + Send + Sync>>> = RwLock::new(None);
+
+thread_local! {
+    static TID: Cell<usize> = Cell::new(0);
+    static SEQ: Cell<usize> = Cell::new(0);
+}
+
+/// Small per-thread identifier (1, 2, ...) in order of first use.
+pub fn tid() -> usize {
+    TID.with(|t| {
+        if t.get() == 0 {
+            t.set(NEXT_TID.fetch_add(1, Ordering::Relaxed));
+        }
+        t.get()
+    })
+}
+
+pub fn enabled() -> bool {
+    ENABLED.load(Ordering::Relaxed)
+}
+
+/// Starts recording (clears previous events).
+pub fn start() {
+    EVENTS.lock().unwrap_or_else(|e| e.into_inner()).clear();
+    ENABLED.store(true, Ordering::SeqCst);
+}
+
+/// Stops recording and returns the events, in the order they were pushed.
+pub fn stop() -> Vec<String> {
+    ENABLED.store(false, Ordering::SeqCst);
+    std::mem::take(&mut *EVENTS.lock().unwrap_or_else(|e| e.into_inner()))
+}
+
+/// Records one event: a JSON object body (without braces) built by the caller only when enabled.
+/// The thread id and a per-thread sequence number are added here, under the sink's lock.
+pub fn ev(body: impl FnOnce() -> String) {
+    if !enabled() {
+        return;
+    }
+    let b = body();
+    let t = tid();
+    let s = SEQ.with(|s| {
+        s.set(s.get() + 1);
+        s.get()
+    });
+    let mut g = EVENTS.lock().unwrap_or_else(|e| e.into_inner());
+    g.push(format!("{{\"tid\":{},\"seq\":{},{}}}", t, s, b));
+}
+
+/// Installs (or removes) the scheduling callback.
+pub fn set_sched(f: Option<Box<dyn Fn(&'static str) + Send + Sync>>) {
+    *SCHED.write().unwrap_or_else(|e| e.into_inner()) = f;
+}
+
+/// Called before lock acquisitions and flag accesses of the parallel sieves.
+#[inline]
+pub fn sched_point(id: &'static str) {
+    if !enabled() {
+        return;
+    }
+    if let Some(f) = SCHED.read().unwrap_or_else(|e| e.into_inner()).as_ref() {
+        f(id)
+    }
+}
